@@ -453,8 +453,10 @@ JumpPlan(cur, tgt) ==
   LET c == CommonSuffix(cur, tgt)
       nOut == Len(cur) - c
       nIn == Len(tgt) - c
-      outs == [i \in 1..nOut |-> [th |-> cur[i].a, w |-> SubSeq(cur, i + 1, Len(cur))]]
-      ins == [i \in 1..nIn |-> [th |-> tgt[nIn - i + 1].b, w |-> SubSeq(tgt, nIn - i + 2, Len(tgt))]]
+      \* (k: the continuation of the dynamic-wind call that made the entry - a wind thunk runs in the dynamic
+      \*  context of that call, R7RS 6.10: an error it raises reaches the handlers that enclose that call)
+      outs == [i \in 1..nOut |-> [th |-> cur[i].a, w |-> SubSeq(cur, i + 1, Len(cur)), k |-> cur[i].k]]
+      ins == [i \in 1..nIn |-> [th |-> tgt[nIn - i + 1].b, w |-> SubSeq(tgt, nIn - i + 2, Len(tgt)), k |-> tgt[nIn - i + 1].k]]
   IN outs \o ins
 
 -----------------------------------------------------------------------------
@@ -758,7 +760,7 @@ RetStep ==
                           /\ UNCHANGED <<store, winders, out>>
        [] fr.f = "handler" -> /\ kont' = rest /\ UNCHANGED <<ctrl, env, store, mode, winders, out>>
        \* dynamic-wind: before thunk returned -> enter body
-       [] fr.f = "windpre" -> /\ winders' = <<[b |-> fr.b, a |-> fr.a]>> \o winders
+       [] fr.f = "windpre" -> /\ winders' = <<[b |-> fr.b, a |-> fr.a, k |-> rest]>> \o winders
                               /\ ctrl' = [fn |-> fr.body, args |-> << >>] /\ mode' = "apply"
                               /\ kont' = <<[f |-> "wind", a |-> fr.a]>> \o rest
                               /\ UNCHANGED <<env, store, out>>
@@ -776,7 +778,7 @@ RetStep ==
               THEN /\ kont' = fr.kk /\ winders' = fr.w /\ ctrl' = fr.v /\ UNCHANGED <<env, store, mode, out>>
               ELSE /\ ctrl' = [fn |-> Head(fr.plan).th, args |-> << >>] /\ mode' = "apply"
                    /\ winders' = Head(fr.plan).w
-                   /\ kont' = <<[fr EXCEPT !.plan = Tail(fr.plan)]>>
+                   /\ kont' = <<[fr EXCEPT !.plan = Tail(fr.plan)]>> \o Head(fr.plan).k
                    /\ UNCHANGED <<env, store, out>>
        \* map / for-each / filter / foldl over one list
        [] fr.f = "mapk" ->
@@ -928,7 +930,8 @@ RaiseStep ==
             /\ winders' = Tail(winders)
             /\ ctrl' = [fn |-> fr.a, args |-> << >>] /\ mode' = "apply"
             /\ kont' = <<[f |-> "reraise", v |-> ctrl]>> \o rest
-       [] fr.f = "jump" ->   \* an error inside a wind thunk of a jump abandons the jump
+       [] fr.f = "jump" ->   \* an error inside a wind thunk of a jump abandons the jump and unwinds from the
+                             \* dynamic-wind call whose thunk it was (rest = that call's continuation)
             /\ kont' = rest /\ UNCHANGED <<ctrl, mode, winders>>
        [] OTHER -> /\ kont' = rest /\ UNCHANGED <<ctrl, mode, winders>>
   /\ UNCHANGED <<env, store, genv, out>>
